@@ -620,3 +620,104 @@ def c03_cases(thorough):
         if name in ('counter_bag', 'counter_set', 'counter_two', 'flat_bag'): graphs = [[]]
         c = Case('REC/' + name, Program(stmts), preds, schema='E', dbs=[{'E': g} for g in graphs], depths=depths_map, info=dict(kind=kind, depth=d, annotated=ann, shape=name))
         yield c
+
+
+# ======================================================================================== C04 functors
+semcheck.SCHEMAS['U4'] = {'A1': ['col0'], 'B1': ['col0'], 'C1': ['col0'], 'D1x': ['col0']}
+from .lang import Functor
+
+
+def dbs_u4():
+  opts = [[], [(1,)], [(1,), (2,)], [(2,), (2,), (3,)]]
+  out = []
+  for a, b, c in itertools.product(opts, repeat=3):
+    out.append({'A1': a, 'B1': b, 'C1': c, 'D1x': [(3,), (1,)]})
+  return out
+
+
+def unary_rule(name, bodies):
+  """bodies: list of conjunctions (lists of predicate names) over x"""
+  if len(bodies) == 1: body = tuple(Lit(q, x) for q in bodies[0])
+  else: body = (('or', tuple(tuple(Lit(q, x) for q in b) for b in bodies)),)
+  return R(name, x, body=body)
+
+
+def c04_shapes(thorough):
+  BASES = ['A1', 'B1', 'C1']
+  def bodies(av):
+    out = [[[a]] for a in av]
+    out += [[[a, b]] for a, b in itertools.combinations(av, 2)]
+    out += [[[a], [b]] for a, b in itertools.combinations(av, 2)]
+    return out
+  B1s = bodies(BASES[:2]) if thorough else [[['A1']], [['A1', 'B1']], [['A1'], ['B1']]]
+  B2s = (bodies(['A1', 'C1', 'D1'])[:6] + [[['D1', 'B1']], [['D1'], ['C1']]]) if thorough else [[['D1']], [['A1', 'D1']], [['C1'], ['D1']], [['D1', 'B1']]]
+  for b1 in B1s:
+    for b2 in B2s:
+      for bf in [[['D1', 'D2']], [['D2'], ['A1']], [['D2']], [['D1'], ['D2']], [['D2', 'B1']]]:
+        yield {'D1': b1, 'D2': b2, 'F': bf}
+        if thorough:
+          for b3 in ([['D2', 'C1']], [['D1'], ['D2']]):
+            yield {'D1': b1, 'D2': b2, 'D3': b3, 'F': [['D3'] if bf == [['D2']] else ['D3', 'D2']]}
+
+
+def shape_deps(prog, p, acc=None):
+  acc = set() if acc is None else acc
+  for body in prog.get(p, []):
+    for q in body:
+      if q not in acc: acc.add(q); shape_deps(prog, q, acc)
+  return acc
+
+
+def c04_make_sets(prog, thorough):
+  BASES = ['A1', 'B1', 'C1']
+  args = sorted(shape_deps(prog, 'F'))
+  vals = BASES + ['D1', 'D1x']
+  singles = [{a: v} for a in args for v in vals if v != a and a not in shape_deps(prog, v)]
+  for m in singles: yield [('G', 'F', m)]
+  # several arguments at once
+  for a, b in itertools.combinations(args, 2):
+    for va, vb in (('C1', 'A1'), ('B1', 'B1'), ('D1x', 'C1')):
+      if va != a and vb != b and a not in shape_deps(prog, vb) and b not in shape_deps(prog, va): yield [('G', 'F', {a: va, b: vb})]
+  k = 5 if not thorough else 9
+  for m1, m2 in itertools.product(singles[:k], singles[:k]):
+    yield [('G', 'F', m1), ('H', 'F', m2)]              # the same functor twice, equal or different bindings
+  for m1 in singles[:5]:
+    for a in args[:3]:
+      for v in BASES:
+        if v != a: yield [('G', 'F', m1), ('K', 'G', {a: v})]   # functor of a functor result (a may not be an argument of G: must be an error)
+  if thorough:
+    for m1, m2 in itertools.product(singles[:4], singles[:4]):
+      for a in args[:2]:
+        yield [('G', 'F', m1), ('H', 'F', m2), ('K', 'G', {a: 'C1'})]
+  # an argument that F does not depend on
+  yield [('G', 'F', {'D1x': 'A1'})]
+  yield [('G', 'D1', {'C1': 'A1'})] if 'C1' not in shape_deps(prog, 'D1') else [('G', 'D1', {'D1x': 'A1'})]
+
+
+def c04_cases(thorough):
+  dbs = dbs_u4()
+  seen = set()
+  for prog in c04_shapes(thorough):
+    rules = [unary_rule(n, b) for n, b in prog.items()]
+    for makes in c04_make_sets(prog, thorough):
+      stmts = list(rules) + [Functor(new, f, tuple(sorted(m.items()))) for new, f, m in makes]
+      p = Program(stmts)
+      t = p.text()
+      if t in seen: continue
+      seen.add(t)
+      yield Case('FUNCTOR', p, list(prog) + [mk[0] for mk in makes], schema='U4', dbs=dbs, fact_dbs=[dbs[27], dbs[63]] if thorough else [dbs[39]])
+  # constants as arguments, value-carrying functors, aggregation inside, annotated intermediate
+  extra = [
+    [R('Thr', value=N(2)), R('Thr1', value=N(1)), R('F', x, body=(Lit('A1', x), Cmp('>=', x, Call('Thr')))), Functor('G', 'F', (('Thr', 'Thr1'),))],
+    [R('Thr', value=N(2)), R('Thr1', value=N(1)), R('D1', x, body=(Lit('A1', x), Cmp('>=', x, Call('Thr')))), R('F', x, y, body=(Lit('D1', x), Lit('B1', y))), Functor('G', 'F', (('Thr', 'Thr1'),)), Functor('H', 'F', (('Thr', 'Thr1'), ('B1', 'C1')))],
+    [R('D1', x, Aggr('Count', y), body=(Lit('A1', x), Lit('B1', y)), distinct=True), R('F', x, s_, body=(Lit('D1', x, s_), Cmp('>', s_, N(0)))), Functor('G', 'F', (('B1', 'C1'),)), Functor('H', 'F', (('A1', 'C1'),))],
+    [R('D1', x, body=(Lit('A1', x), Not(Lit('B1', x)))), R('F', x, body=(Lit('D1', x),)), Functor('G', 'F', (('B1', 'C1'),)), Functor('H', 'G', (('A1', 'B1'),))],
+    [R('D1', x, value=Bin('+', x, N(1)), body=(Lit('A1', x),)), R('F', x, Call('D1', x), body=(Lit('B1', x),)), Functor('G', 'F', (('A1', 'C1'),))],
+    [R('D1', x, body=(Lit('A1', x),)), R('F', x, s_, body=(Lit('B1', x), Eq(s_, Comb('Sum', y, (Lit('D1', y), Cmp('<=', y, x)))))), Functor('G', 'F', (('A1', 'C1'),)), Functor('H', 'F', (('D1', 'C1'),))],
+    [R('D1', x, body=(Lit('A1', x),), order_by=['col0'], limit=1), R('F', x, body=(Lit('D1', x),)), Functor('G', 'F', (('A1', 'C1'),))],
+  ]
+  for stmts in extra:
+    p = Program(stmts)
+    preds = [pp for pp in p.defined() if pp not in ('Thr', 'Thr1')]
+    dbs2 = dbs if not any(getattr(s, 'limit', None) is not None for s in stmts) else [d for d in dbs if all(len(set(v)) == len(v) for v in d.values())]
+    yield Case('FUNCTOR-X', p, preds, schema='U4', dbs=dbs2, fact_dbs=[])
